@@ -250,21 +250,11 @@ use super::c04_frame_pointer::{sysinfo, NoSyms};
 use minidump::system_info::{Cpu, Os};
 use minidump_unwind::{FrameTrust, StackFrame};
 
-pub static mut THE_MODULE: Option<MinidumpModule> = None;
-pub static mut LOOKED_UP: u64 = 0;
-/// Stand-in for `MinidumpModuleList::module_at_address` (range-map lookups over a built module list are
-/// out of reach): every address lies in one module; the address that was asked for is recorded.
-pub fn stub_module_at(_l: &MinidumpModuleList, address: u64) -> Option<&'static MinidumpModule> {
-    unsafe {
-        LOOKED_UP = address;
-        (*std::ptr::addr_of!(THE_MODULE)).as_ref()
-    }
-}
-
 fn walker_from_args_bookkeeping() {
-    unsafe {
-        THE_MODULE = Some(MinidumpModule::new(0x1000, 0x1000, "m"));
-    }
+    // one module [0x40000000, 0x40010000), real range-map lookup (list assembled from its parts by the hook)
+    let module = MinidumpModule::new(0x4000_0000, 0x1_0000, "m");
+    let rm: range_map::RangeMap<u64, usize> = range_map::RangeMap::try_from_iter(vec![(range_map::Range::new(0x4000_0000u64, 0x4000_ffffu64), 0usize)]).unwrap();
+    let modules = minidump::verif::module_list_from_parts(vec![module], rm);
     let ctx = x86_ctx();
     let mut callee = StackFrame::from_context(MinidumpContext::from_raw(MinidumpRawContext::X86(ctx.clone())), FrameTrust::Scan);
     // a non-context frame: the lookup address is the return address minus the call adjustment, NOT the raw ip
@@ -274,37 +264,38 @@ fn walker_from_args_bookkeeping() {
     gc.parameter_size = kani::any();
     let bytes = [0u8; 8];
     let mem = MinidumpMemory { desc: Default::default(), base_address: 0x1000, size: 8, bytes: &bytes, endian: Endian::Little };
-    let modules = MinidumpModuleList::new();
     let si = sysinfo(Os::Windows, Cpu::X86);
     let mut got = (0u64, false, 0u32);
     let r = hook::x86_with_cfi_walker_from_args(&ctx, &callee, if has_gc { Some(&gc) } else { None }, UnifiedMemory::Memory(&mem), &modules, &si, &NoSyms, |w| {
         got = (w.get_instruction(), w.has_grand_callee(), w.get_grand_callee_parameter_size());
     });
-    assert!(r.is_some());
-    // the module (and with it the CFI) is looked up at the frame's lookup address
-    assert!(unsafe { LOOKED_UP } == callee.instruction);
-    assert!(got.0 == callee.instruction);
-    // a grand-callee exists iff a frame was passed, whatever it knows about its parameter size
-    assert!(got.1 == has_gc);
-    assert!(got.2 == if has_gc { gc.parameter_size.unwrap_or(0) } else { 0 });
-    kani::cover!(has_gc && gc.parameter_size.is_none(), "grand-callee without a known parameter size");
-    let (c, s) = r.unwrap();
-    // caller context starts as the callee's; caller validity = forwarded callee-saved registers
-    assert!(c.eip == ctx.eip && c.esp == ctx.esp && c.ebp == ctx.ebp && c.ebx == ctx.ebx && c.esi == ctx.esi && c.edi == ctx.edi);
-    assert!(s.len() == 4);
+    // the module (and with it the CFI) is looked up at the frame's lookup address, not at the raw instruction pointer
+    let in_module = callee.instruction >= 0x4000_0000 && callee.instruction <= 0x4000_ffff;
+    assert!(r.is_some() == in_module);
+    kani::cover!(r.is_some() && !(ctx.eip as u64 >= 0x4000_0000 && ctx.eip as u64 <= 0x4000_ffff), "lookup address inside the module, raw ip outside");
+    if r.is_some() {
+        assert!(got.0 == callee.instruction);
+        // a grand-callee exists iff a frame was passed, whatever it knows about its parameter size
+        assert!(got.1 == has_gc);
+        assert!(got.2 == if has_gc { gc.parameter_size.unwrap_or(0) } else { 0 });
+        kani::cover!(has_gc && gc.parameter_size.is_none(), "grand-callee without a known parameter size");
+        let (c, s) = r.unwrap();
+        // caller context starts as the callee's; caller validity = forwarded callee-saved registers
+        assert!(c.eip == ctx.eip && c.esp == ctx.esp && c.ebp == ctx.ebp && c.ebx == ctx.ebx && c.esi == ctx.esi && c.edi == ctx.edi);
+        assert!(s.len() == 4);
+    }
     std::mem::forget(callee);
     std::mem::forget(gc);
     std::mem::forget(modules);
 }
 
 /// F: CfiStackWalker::<CONTEXT_X86>::from_ctx_and_args (the real constructor used by every get_caller_by_cfi)
-/// I: callee x86 registers, the callee frame's lookup address (`instruction`, independent of the context's eip), presence of a grand-callee frame and its parameter size (known or not)
+/// I: callee x86 registers, the callee frame's lookup address (`instruction`, independent of the context's eip; any u64, inside or outside the module), presence of a grand-callee frame and its parameter size (known or not)
 /// B: one construction
-/// A: MinidumpModuleList::module_at_address replaced by a stub that maps every address to one module and records the address
-/// O: module/CFI lookup and get_instruction() use the frame's lookup address (return address minus the call adjustment), not the raw instruction pointer; has_grand_callee is true iff a grand-callee frame exists; its parameter size is the frame's or 0; caller context = callee's, caller validity = forwarded callee-saved registers
+/// A: module list of one module at a fixed range, assembled from its parts by the hook (from_modules itself is out of reach); the range-map lookup is real
+/// O: a walker exists iff the frame's lookup address (return address minus the call adjustment) lies in the module, whatever the raw instruction pointer; get_instruction() is that address; has_grand_callee is true iff a grand-callee frame exists; its parameter size is the frame's or 0; caller context = callee's, caller validity = forwarded callee-saved registers
 #[kani::proof]
 #[kani::unwind(12)]
-#[kani::stub(minidump::MinidumpModuleList::module_at_address, stub_module_at)]
 fn c04_q_cfi_walker_x86_from_args() {
     walker_from_args_bookkeeping();
 }
@@ -316,7 +307,6 @@ fn c04_q_cfi_walker_x86_from_args() {
 /// O: as above
 #[kani::proof]
 #[kani::unwind(12)]
-#[kani::stub(minidump::MinidumpModuleList::module_at_address, stub_module_at)]
 fn c07_q_walker_grand_callee_bookkeeping() {
     walker_from_args_bookkeeping();
 }
